@@ -155,7 +155,9 @@ def run_sel(tier, seed):
         limit = 36
         extra = rng.sample(ed.dag_space(4, rng, with_illegal=False), 160)
         Ds += extra
+        Ds += ed.debug_chain_dags(4, rng, 60) + ed.debug_chain_dags(5, rng, 60)
     else:
+        Ds += ed.debug_chain_dags(4, rng, 10 ** 6) + ed.debug_chain_dags(5, rng, 1500)
         limit = 400
         Ds += ed.dag_space(3, rng, const_mode="all", with_illegal=False)[::3]
         Ds += rng.sample(ed.dag_space(4, rng, with_illegal=False), 2500)
